@@ -563,6 +563,40 @@ func runSideOrphan(sc proxyScenario) (problems []string, skipped string) {
 	return problems, ""
 }
 
+// runSideHandshakeHung (side mode, endpoint with its own websocket dialer): the proxy asks for a side connection,
+// never answers the endpoint's side handshake, and then drops the control connection.  Accept must return.
+func runSideHandshakeHung(sc proxyScenario) (problems []string, skipped string) {
+	fp, err := snix.NewFakeProxyOpt(&sniproxy.Options{Siding: true, DialWithAddr: true}, true)
+	if err != nil {
+		return nil, "fake proxy: " + err.Error()
+	}
+	defer fp.Close()
+	acceptReturned := make(chan error, 1)
+	go func() {
+		for {
+			c, err := fp.EP.Accept()
+			if err != nil {
+				acceptReturned <- err
+				return
+			}
+			c.Close()
+		}
+	}()
+	for i := 0; i <= sc.tunnels; i++ {
+		// dialSide2Request{session, key, token, tcpAddr}
+		body := append(append(snix.U64(uint64(i)), snix.U64(77)...), append(snix.StrBody("tok"), snix.StrBody("192.0.2.1:9")...)...)
+		fp.Request(uint64(i+1), 9, body)
+	}
+	time.Sleep(200 * time.Millisecond)
+	fp.Conn.UnderlyingConn().Close()
+	select {
+	case <-acceptReturned:
+	case <-time.After(watchdog + 12*time.Second): // the side dial has its own 5 s bound
+		problems = append(problems, "Endpoint.Accept did not return after the proxy left a side handshake unanswered and dropped the control connection")
+	}
+	return problems, ""
+}
+
 // runEpFault: a real endpoint with open sessions (an application blocked reading each, a read request
 // outstanding on each) gets something it cannot serve from the proxy side, or loses the connection.
 func runEpFault(sc proxyScenario) (problems []string, skipped string) {
@@ -668,6 +702,12 @@ func runEpFault(sc proxyScenario) (problems []string, skipped string) {
 }
 
 func runProxy(sc proxyScenario) (problems []string, skipped string) {
+	if sc.fault == "side-handshake-hung" {
+		if sc.mode == "legacy" {
+			return nil, "side dials exist in the side modes only"
+		}
+		return runSideHandshakeHung(sc)
+	}
 	if sc.fault == "side-dial-orphaned" {
 		if sc.mode == "legacy" {
 			return nil, "side dials exist in the side modes only"
@@ -716,7 +756,7 @@ func runProxy(sc proxyScenario) (problems []string, skipped string) {
 	}
 	var hung *websocket.Conn // fault "kick-hung": the first endpoint is a peer that never answers
 	hungClosed := make(chan struct{})
-	if sc.fault == "kick-hung" || sc.fault == "kick-hung-hinted" {
+	if sc.fault == "kick-hung" || sc.fault == "kick-hung-hinted" || sc.fault == "graceful-silent" {
 		u := "ws" + strings.TrimPrefix(ts.URL, "http") + "/"
 		hung, _, err = websocket.DefaultDialer.Dial(u, nil)
 		if err != nil {
@@ -724,9 +764,14 @@ func runProxy(sc proxyScenario) (problems []string, skipped string) {
 		}
 		go func() {
 			for {
-				if _, _, err := hung.ReadMessage(); err != nil {
+				_, bs, err := hung.ReadMessage()
+				if err != nil {
 					close(hungClosed)
 					return
+				}
+				if sc.fault == "graceful-silent" && len(bs) >= 9 && bs[8] == 0 {
+					// it acknowledges the shutdown call — and then stays connected and silent
+					hung.WriteMessage(websocket.BinaryMessage, append(append([]byte{}, bs[:8]...), 0, 0))
 				}
 			}
 		}()
@@ -753,11 +798,17 @@ func runProxy(sc proxyScenario) (problems []string, skipped string) {
 			fronts = append(fronts, c)
 		}
 		time.Sleep(50 * time.Millisecond)
-		ep2, err := dialEP() // a newer connection under the same name kicks the hung one
-		if err != nil {
-			return nil, "dial kicking endpoint: " + err.Error()
+		var ep2 *sniproxy.Endpoint
+		if sc.fault == "graceful-silent" {
+			// no newer endpoint: the peer itself asks to stop
+			hung.WriteMessage(websocket.BinaryMessage, append(snix.U64(0), 7, 0))
+		} else {
+			ep2, err = dialEP() // a newer connection under the same name kicks the hung one
+			if err != nil {
+				return nil, "dial kicking endpoint: " + err.Error()
+			}
+			defer ep2.Close()
 		}
-		defer ep2.Close()
 		select {
 		case <-hungClosed:
 		case <-time.After(watchdog + 6*time.Second):
@@ -772,7 +823,9 @@ func runProxy(sc proxyScenario) (problems []string, skipped string) {
 			c.Close()
 		}
 		hung.Close()
-		ep2.Close()
+		if ep2 != nil {
+			ep2.Close()
+		}
 		cancel()
 		select {
 		case <-frontDone:
@@ -1083,6 +1136,7 @@ func main() {
 			ops = append(ops, proxyScenario{fault, 2, "legacy"}.canon())
 		}
 		ops = append(ops, proxyScenario{"side-dial-orphaned", 1, "siding"}.canon(), proxyScenario{"side-dial-orphaned", 0, "siding-addr"}.canon())
+		ops = append(ops, proxyScenario{"side-handshake-hung", 1, "siding-addr"}.canon(), proxyScenario{"graceful-silent", 1, "legacy"}.canon())
 		// many idle multiplexed connections (each keeps a read outstanding at the endpoint) when the tunnel goes
 		ops = append(ops, proxyScenario{"sever", 130, "legacy"}.canon())
 		if f.Thorough() {
